@@ -21,6 +21,7 @@ import copy
 import json
 import random
 import sys
+import time
 
 from engine import tlc, core, tracecheck
 
@@ -59,6 +60,7 @@ MODELS = {
 
 P_C2N2 = dict(clients=["c1", "c2"], N=2, srv=0, nports=2, served=[1], veto=[["c2", 1]])
 P_C3N2 = dict(clients=["c1", "c2", "c3"], N=2, srv=0, nports=2, served=[1], veto=[["c3", 1]])
+P_C3N2S = dict(clients=["c1", "c2", "c3"], N=2, srv=2, nports=2, served=[1], veto=[["c3", 1]])
 P_C3N3S = dict(clients=["c1", "c2", "c3"], N=3, srv=2, nports=2, served=[1], veto=[["c3", 1]])
 P_SIM = dict(clients=["c1", "c2", "c3"], N=3, srv=2, nports=3, served=[1, 2], veto=[["c3", 1]])
 P_SIM_LIST = dict(clients=["c1", "c2", "c3"], N=2, srv=0, nports=3, served=[1, 2], veto=[["c3", 1]], kind="list",
@@ -68,10 +70,11 @@ P_SIM_NOR = dict(clients=["c1", "c2", "c3"], N=2, srv=0, nports=3, served=[1, 2]
 # (cfg, adapter params, keep every k-th behaviour (None = all))
 EDGES = {
     "quick": [("EX_edges_c2n2.cfg", P_C2N2, None),
-              ("EX_edges_list_c2n2.cfg", dict(P_C2N2, kind="list"), 2),
-              ("EX_edges_c3n2.cfg", P_C3N2, 14)],
+              ("EX_edges_list_c2n2.cfg", dict(P_C2N2, kind="list"), 10),
+              ("EX_edges_c3n2s.cfg", P_C3N2S, 4)],
     "thorough": [("EX_edges_c2n2.cfg", P_C2N2, None),
                  ("EX_edges_list_c2n2.cfg", dict(P_C2N2, kind="list"), None),
+                 ("EX_edges_c3n2s.cfg", P_C3N2S, None),
                  ("EX_edges_c3n2.cfg", P_C3N2, None),
                  ("EX_edges_c3n3s.cfg", P_C3N3S, 3),
                  ("EX_edges_list_c3n2.cfg", dict(P_C3N2, kind="list"), 8)],
@@ -86,28 +89,29 @@ SIMS = {
 NVARIANTS = 6
 
 
-def _load(behs, kind):
-  from harness.adapters_x01 import canon_exp, canon_free
-  return [canon_free(canon_exp(b), kind) for b in behs]
-
-
 def _nontrivial(b):
   return any(s["a"] in ("Discover", "Request", "Release") for s in b)
 
 
-def _replay(ctx, behs, params, label):
-  """Replay under NVARIANTS concretisations (networks, MAC families, dpids): behaviour i under variant i mod V."""
-  tot = dict(ok=0, diverted=0, mismatch=0)
-  for v in range(NVARIANTS):
-    part = behs[v::NVARIANTS]
-    if not part:
-      continue
-    st = core.replay(ctx, ADAPTER, part, params=dict(params, variant=v, seed=ctx.seed), nontrivial=_nontrivial,
-                     chunk=100)
-    for k in tot:
-      tot[k] += st[k]
-  ctx.notes["replay_" + label] = dict(behaviours=len(behs), **tot)
-  return tot
+def _replay(ctx, behs, params, label, base=0):
+  """Replay under NVARIANTS concretisations (networks, MAC families, dpids, xids): behaviour i runs under variant
+  base + i mod NVARIANTS, named in its ConnUp step (arguments are not compared)."""
+  for i, b in enumerate(behs):
+    if b and b[0]["a"] == "ConnUp":
+      b[0]["args"]["variant"] = base + i % NVARIANTS
+  st = core.replay(ctx, ADAPTER, behs, params=dict(params, seed=ctx.seed), nontrivial=_nontrivial, chunk=100)
+  ctx.notes["replay_" + label] = dict(behaviours=len(behs), **st)
+  return st
+
+
+def _decode(r, tag, kind, keep=None, offset=0):
+  """Decode every keep-th exported behaviour only (decoding all of a large export is the cost)."""
+  from harness.adapters_x01 import canon_exp, canon_free
+  raw = r.tagged_raw(tag)
+  total = len(raw)
+  if keep:
+    raw = raw[offset % keep::keep]
+  return [canon_free(canon_exp(json.loads(json.loads(x))), kind) for x in raw], total
 
 
 def run(ctx):
@@ -128,10 +132,22 @@ def run(ctx):
       "the code deviates from the intended design in three named ways (notes/X01.md, Defects observed): the check "
       "accepts the intended behaviour and those deviations, nothing else",
   ]
+  # ---- all TLC runs of the model side, concurrently: properties (multi-worker), exports (one worker each)
+  jobs = [dict(spec_dir="dhcpd", module="MCDhcpd", cfg=cfg, tag="X01", timeout=1500, workers=4)
+          for cfg, _, _ in MODELS[ctx.tier]]
+  jobs += [dict(spec_dir="dhcpd", module="MCDhcpd", cfg=cfg, tag="X01", timeout=1500, workers=1, coverage=False)
+           for cfg, _, _ in EDGES[ctx.tier]]
+  jobs += [dict(spec_dir="dhcpd", module="MCDhcpd", cfg=cfg, tag="X01", timeout=1500, workers=1, coverage=False,
+                simulate=dict(num=num), depth=depth + 1, seed=ctx.seed + 1)
+           for cfg, _, num, depth in SIMS[ctx.tier]]
+  t0 = time.time()
+  phase = ctx.notes.setdefault("phase_wall_s", {})
+  results = tlc.run_many(jobs, parallel=6)
+  phase["tlc_models_and_exports"] = round(time.time() - t0, 1)
+  t0 = time.time()
+  nm, ne = len(MODELS[ctx.tier]), len(EDGES[ctx.tier])
   # ---- 1. the properties on the model
-  jobs = [dict(spec_dir="dhcpd", module="MCDhcpd", cfg=cfg, tag="X01", timeout=1500) for cfg, _, _ in MODELS[ctx.tier]]
-  results = tlc.run_many(jobs, parallel=3 if quick else 4)
-  for (cfg, label, acts), r in zip(MODELS[ctx.tier], results):
+  for (cfg, label, acts), r in zip(MODELS[ctx.tier], results[:nm]):
     if r.violated:
       raise tlc.TLCError("spec violates its own property %s (%s):\n%s" % (r.violated, cfg, r.error_trace))
     tlc.require_coverage(r, acts, cfg)
@@ -142,39 +158,44 @@ def run(ctx):
         raise tlc.TLCError("deviation actions enabled in the intended design %s: %s" % (cfg, on))
     ctx.add_model("Dhcpd %s (%s)" % (label, cfg), r)
   # ---- 2. spec -> code
-  for cfg, params, keep in EDGES[ctx.tier]:
-    r = tlc.run("dhcpd", "MCDhcpd", cfg, workers=1, coverage=False, tag="X01", timeout=1500)
-    behs = _load(r.tagged("T"), params.get("kind", "simple"))
+  for (cfg, params, keep), r in zip(EDGES[ctx.tier], results[nm:nm + ne]):
+    behs, total = _decode(r, "T", params.get("kind", "simple"), keep=keep, offset=ctx.seed)
     if not behs:
       raise tlc.TLCError("no behaviours exported by %s" % cfg)
-    total = len(behs)
-    if keep:
-      off = ctx.seed % keep
-      behs = behs[off::keep]
-    st = _replay(ctx, behs, params, cfg[:-4])
+    _replay(ctx, behs, params, cfg[:-4], base=ctx.seed % 5)
     ctx.notes["replay_" + cfg[:-4]]["exported"] = total
   neg = None
-  for cfg, params, num, depth in SIMS[ctx.tier]:
-    r = tlc.run("dhcpd", "MCDhcpd", cfg, workers=1, coverage=False, simulate=dict(num=num), depth=depth + 1,
-                seed=ctx.seed + 1, tag="X01", timeout=1500)
-    behs = [b[:depth] for b in _load(r.tagged("H"), params.get("kind", "simple"))]
+  for (cfg, params, num, depth), r in zip(SIMS[ctx.tier], results[nm + ne:]):
+    behs, total = _decode(r, "H", params.get("kind", "simple"))
     if len(behs) < num // 2:
       raise tlc.TLCError("simulation %s exported %d behaviours" % (cfg, len(behs)))
-    st = _replay(ctx, behs, params, cfg[:-4])
+    _replay(ctx, behs, params, cfg[:-4], base=ctx.seed % 7)
     if neg is None:
       neg = (behs, params)
   # negative control for the replay: one expectation of one accepted behaviour corrupted -> must mismatch
   _replay_negative_control(ctx, *neg)
+  phase["replay"] = round(time.time() - t0, 1)
+  t0 = time.time()
   # ---- 3. code -> spec
   ntr = 240 if quick else 3000
+  batches = []
   for kind, cfg, share in (("simple", "Trace_simple.cfg", 2), ("list", "Trace_list.cfg", 1)):
     n = ntr * share // 3
     traces = core.run_driver("props.X01:drive", [(ctx.seed * 100003 + i, 40 if quick else 60, kind) for i in range(n)])
     bad1, bad2 = _corrupt(traces)
-    r, rej = tracecheck.validate("dhcpd", "TraceDhcpd", cfg, traces + [bad1, bad2], tag="X01")
+    if (bad1 is None or bad2 is None) and not ctx.violations:
+      raise tlc.TLCError("no trace suitable for the negative controls (no OFFER/ACK or no effective RELEASE recorded)")
+    batches.append((kind, cfg, traces, [b for b in (bad1, bad2) if b is not None]))
+  phase["trace_drivers"] = round(time.time() - t0, 1)
+  t0 = time.time()
+  from concurrent.futures import ThreadPoolExecutor
+  with ThreadPoolExecutor(2) as ex:
+    vals = list(ex.map(lambda b: tracecheck.validate("dhcpd", "TraceDhcpd", b[1], b[2] + b[3], tag="X01"), batches))
+  for (kind, cfg, traces, bads), (r, rej) in zip(batches, vals):
+    n = len(traces)
     ctx.add_model("TraceDhcpd %s (validation of %d implementation traces)" % (kind, n), r)
     rejected = {t for t, _ in rej}
-    if len(traces) not in rejected or len(traces) + 1 not in rejected:
+    if any(len(traces) + i not in rejected for i in range(len(bads))):
       raise tlc.TLCError("negative control (corrupted yiaddr / corrupted pool) was accepted by the trace spec")
     nrej = 0
     for t, matched in rej:
@@ -190,31 +211,38 @@ def run(ctx):
     for t in traces[:2000]:
       ctx.case(core.fp([[e["a"], e["args"]] for e in t]), sample=None)
     ctx.notes["trace_validation_" + kind] = dict(traces=len(traces), events=sum(len(t) for t in traces),
-                                                  rejected=nrej, negative_controls_rejected=2,
+                                                  rejected=nrej, negative_controls_rejected=len(bads),
                                                   acks=sum(1 for t in traces for e in t
                                                            if e["a"] == "Request" and e["obs"]["reply"]["t"] == "ACK"),
                                                   faults=sum(1 for t in traces for e in t if e["obs"].get("fault")))
+  phase["trace_validation"] = round(time.time() - t0, 1)
   ctx.exhaustive = True
 
 
 def _replay_negative_control(ctx, behs, params):
-  """Corrupt the expected yiaddr of one OFFER of a behaviour that replays cleanly: the replay must mismatch."""
+  """Corrupt the expected yiaddr of one OFFER of a behaviour that replays cleanly: the replay must mismatch.
+  (When the code under test already fails those behaviours there is nothing to control: the verdict stands.)"""
   scratch = core.Context(ctx.pid, ctx.tier, ctx.seed, ctx.level, clear=False)
-  for b in behs[:20]:
+  tried = 0
+  for b in behs[:40]:
     idx = [i for i, s in enumerate(b) if s["a"] == "Discover" and s["exp"]["reply"]["t"] == "OFFER"]
     if not idx:
       continue
-    good = core.replay(scratch, ADAPTER, [b], params=dict(params, variant=0, seed=ctx.seed), procs=1)
+    tried += 1
+    good = core.replay(scratch, ADAPTER, [b], params=dict(params, seed=ctx.seed), procs=1)
     if good["ok"] != 1:
       continue
     bad = copy.deepcopy(b)
     s = bad[idx[-1]]
     s["exp"]["reply"]["yi"] = s["exp"]["reply"]["yi"] % 3 + 1
     s["args"].pop("alts", None)
-    res = core.replay(scratch, ADAPTER, [bad], params=dict(params, variant=0, seed=ctx.seed), procs=1)
+    res = core.replay(scratch, ADAPTER, [bad], params=dict(params, seed=ctx.seed), procs=1)
     if res["mismatch"] != 1:
       raise core.Machinery("negative control: a corrupted expectation replayed without mismatch")
     ctx.notes["replay_negative_control"] = "corrupted OFFER address rejected"
+    return
+  if ctx.violations and tried:
+    ctx.notes["replay_negative_control"] = "skipped: no behaviour replays cleanly on this tree (violations reported)"
     return
   raise core.Machinery("negative control: no cleanly replaying behaviour with an OFFER found")
 
@@ -236,7 +264,7 @@ def _corrupt(traces):
           break
     if bad1 is not None and bad2 is not None:
       return bad1, bad2
-  raise tlc.TLCError("no trace suitable for the negative controls (no OFFER/ACK or no effective RELEASE recorded)")
+  return bad1, bad2
 
 
 # --------------------------------------------------------------------------
@@ -289,9 +317,17 @@ def drive(arg):
   N = params["N"]
   blank = dict(c="", w=0, p=0, x=0, bc=False, prl=[], ch="", k="")
   tr = []
-  obs = ad.step("ConnUp", {})
-  tr.append(dict(a="ConnUp", args=dict(blank), obs=obs if set(obs) == {"flows"} else {"flows": -1},
-                 wf=set(obs) == {"flows"}))
+  try:
+    obs = ad.step("ConnUp", {})
+  except core.Machinery:
+    raise
+  except Exception as e:          # noqa - the server / pool could not even be built: recorded, rejected by TLC
+    obs = {"exc": "%s: %s" % (type(e).__name__, e)}
+  ok = set(obs) == {"flows"}
+  tr.append(dict(a="ConnUp", args=dict(blank), obs=obs if ok else {"flows": -1, "raw": json.dumps(obs, default=str)[:300]},
+                 wf=ok))
+  if not ok:
+    return tr
   hint = {c: 0 for c in clients}          # the address the client was last offered / acknowledged
   for _ in range(n - 1):
     k = rnd.random()
